@@ -407,7 +407,7 @@ func timerCfg(repo string) (perArm, stopCloses, recheck bool) {
 }
 
 // ---- ws/websocket.go: design facts of the adapter
-func wsCfg(repo string) (pumpClosesQueue, writeSelectsClose, shutdownAlways, reportIfFirst bool) {
+func wsCfg(repo string) (pumpClosesQueue, writeSelectsClose, shutdownAlways, reportIfFirst, farewellInsideOnce bool) {
 	f := parse(repo, "ws/websocket.go")
 	// any close(…shipWriteChannel) in the file
 	ast.Inspect(f, func(x ast.Node) bool {
@@ -505,6 +505,28 @@ func wsCfg(repo string) (pumpClosesQueue, writeSelectsClose, shutdownAlways, rep
 	for _, d := range f.Decls {
 		if fd, ok := d.(*ast.FuncDecl); ok && fd.Body != nil {
 			walk(fd.Body, false)
+		}
+	}
+	// CloseDataConnection: no transport write outside the once function (its close frame is written by a
+	// callback handed to the once function, i.e. after the connection was marked closed)
+	if cd := funcDecl(f, "CloseDataConnection"); cd != nil && onceFunc != "" {
+		farewellInsideOnce = true
+		for _, st := range cd.Body.List {
+			ast.Inspect(st, func(x ast.Node) bool {
+				if c, ok := x.(*ast.CallExpr); ok {
+					name := sel(c.Fun)
+					if name == onceFunc {
+						return false // arguments of the once function (the farewell callback) are fine
+					}
+					if name == "writeMessageWithoutErrorHandling" || name == "writeMessage" || name == "WriteMessage" {
+						farewellInsideOnce = false
+					}
+				}
+				return true
+			})
+		}
+		if !containsCall(cd.Body, onceFunc) {
+			farewellInsideOnce = false
 		}
 	}
 	return
@@ -646,8 +668,8 @@ func main() {
 		files["TimerFacts.lean"] = fmt.Sprintf("/- GENERATED by /verif/extract from /repo — do not edit. -/\nimport ShipVerif.Model.Timer\nnamespace ShipVerif.Generated\n\n/-- ship/handshake.go setHandshakeTimer / stopHandshakeTimer: design facts -/\ndef timerCfg : ShipVerif.Timer.Cfg := { perArmChannel := %v, stopCloses := %v, recheck := %v }\n\nend ShipVerif.Generated\n", a, b, c)
 	}
 	{
-		a, b, c, d := wsCfg(*repo)
-		files["WsFacts.lean"] = fmt.Sprintf("/- GENERATED by /verif/extract from /repo — do not edit. -/\nimport ShipVerif.Model.Ws\nnamespace ShipVerif.Generated\n\n/-- ws/websocket.go: design facts -/\ndef wsCfg : ShipVerif.Ws.Cfg := { pumpClosesQueue := %v, writeSelectsClose := %v, shutdownAlways := %v, reportIfFirst := %v }\n\nend ShipVerif.Generated\n", a, b, c, d)
+		a, b, c, d, e := wsCfg(*repo)
+		files["WsFacts.lean"] = fmt.Sprintf("/- GENERATED by /verif/extract from /repo — do not edit. -/\nimport ShipVerif.Model.Ws\nnamespace ShipVerif.Generated\n\n/-- ws/websocket.go: design facts -/\ndef wsCfg : ShipVerif.Ws.Cfg := { pumpClosesQueue := %v, writeSelectsClose := %v, shutdownAlways := %v, reportIfFirst := %v, farewellInsideOnce := %v }\n\nend ShipVerif.Generated\n", a, b, c, d, e)
 	}
 	files["AsyncFacts.lean"] = fmt.Sprintf("/- GENERATED by /verif/extract from /repo — do not edit. -/\nimport ShipVerif.Model.View\nnamespace ShipVerif.Generated\n\n/-- mdns/mdns.go: reports are delivered under a mutex and dropped when a newer snapshot was delivered -/\ndef mdnsReportCfg : ShipVerif.Async.Cfg := { guarded := %v }\n\nend ShipVerif.Generated\n", mdnsReportGuarded(*repo))
 	for name, text := range files {
